@@ -153,6 +153,17 @@ theorem allrefs_exact (h : Heap) (hk : (AList.keys h).Nodup) (R : List SlabID) (
       (∀ id, id ∈ refs ↔ (Reach h root id ∧ id ≠ root)) :=
   allChildReferences_healthy h hk R hh root hroot
 
+/-- The verdict does not depend on the order in which the slabs are visited (Go iterates maps in
+    random order): two orders of one heap with unique keys are accepted together, with the same set
+    of roots, and when both runs fail without diverging the same check fired. -/
+theorem check_order_independent (h h' : Heap) (hk : (AList.keys h).Nodup) (hp : h.Perm h')
+    (expected : Option Nat) :
+    (∀ R, check h expected = .ok R → ∃ R', check h' expected = .ok R' ∧ ∀ id, id ∈ R' ↔ id ∈ R) ∧
+    (∀ R', check h' expected = .ok R' → ∃ R, check h expected = .ok R ∧ ∀ id, id ∈ R ↔ id ∈ R') ∧
+    (∀ k k', check h expected = .error k → check h' expected = .error k' → k ≠ .diverges →
+      k' ≠ .diverges → k' = k) :=
+  Health.check_order_independent h h' hk hp expected
+
 /-! ### Decidable equality of check results (for the `decide` examples below) -/
 
 instance decEqCheckResult {α : Type} [DecidableEq α] : DecidableEq (Except HErr α)
@@ -317,6 +328,19 @@ theorem exHeap_double_reference :
 theorem exHeap_foreign_owner :
     check ((⟨2, 7⟩, ⟨⟨2, 7⟩, [exRoot1]⟩) :: exHeap) (some 2) = .error .owner ∧
     check ((⟨2, 7⟩, ⟨⟨2, 7⟩, [exRoot1]⟩) :: exHeap) none = .error .owner := by decide
+
+/-- the example heap visited in the opposite order: same verdicts (`check_order_independent`), by
+    evaluation -/
+example : check exHeap.reverse (some 2) = .ok [exRoot2, exRoot1] := by decide
+example : check (AList.erase exHeap exA).reverse (some 2) = .error .slabNotFound := by decide
+example : check ((⟨2, 7⟩, ⟨⟨2, 7⟩, [exRoot1]⟩) :: exHeap).reverse none = .error .owner := by decide
+/-- the one pair of outcomes that does depend on the order: a foreign owner on one parent chain, a
+    reference cycle on another -/
+def raceHeap : Heap :=
+  [(⟨1, 1⟩, ⟨⟨1, 1⟩, [⟨1, 2⟩, ⟨1, 3⟩]⟩), (⟨1, 2⟩, ⟨⟨1, 2⟩, [⟨1, 1⟩]⟩), (⟨1, 3⟩, ⟨⟨1, 3⟩, []⟩),
+   (⟨2, 1⟩, ⟨⟨2, 1⟩, [⟨1, 4⟩]⟩), (⟨1, 4⟩, ⟨⟨1, 4⟩, []⟩)]
+example : check raceHeap none = .error .diverges := by decide
+example : check raceHeap.reverse none = .error .owner := by decide
 
 /-- the general theorems apply to the example (their hypotheses are satisfiable) -/
 example : ∀ R', check (AList.erase exHeap exA) (some 2) ≠ .ok R' :=
